@@ -61,8 +61,9 @@ def add(prop, src, name):
     d = os.path.join(SEEDED, name)
     os.makedirs(d, exist_ok=True)
     for fn in os.listdir(src):
-        if fn in ('patch.diff', 'demo.py', 'demo.sh', 'notes.md'):
-            shutil.copy(os.path.join(src, fn), os.path.join(d, fn))
+        if fn in ('patch.diff', 'demo.py', 'demo.sh', 'notes.md', 'demo_main.rs'):
+            if os.path.abspath(src) != os.path.abspath(d):
+                shutil.copy(os.path.join(src, fn), os.path.join(d, fn))
     wt = f'/tmp/vm_{name}'
     sh(f'git -C {REPO} worktree remove --force {wt}')
     rc, out = sh(f'git -C {REPO} worktree add -q {wt} HEAD')
